@@ -94,15 +94,16 @@ def model_check(ctx):
     A = ("append",)
     if thorough:
         runs = [("legal", ("Jt", "Lt", "Xt", "N", "Jf"), (1, 2, 3), ("none", "jump"), (2, 3), False, A),
+                ("legal", ("Jt", "Lt", "Zt", "Rt", "Xt", "N"), (1, 2), ("none", "jump"), (1, 2, 3, 4), False, A),
                 ("legal", ("Jt", "Xt", "N", "Jf"), (2, 3), ("none", "nop"), (1, 4), False, ("append", "inplace")),
                 ("legal", ("Jt", "Xt", "N"), (2,), ("none",), (2, 3), True, A),
-                ("fixed", ("Jt", "Lt", "Xt", "N", "Jf", "Bt", "W"), (1, 2), ("none", "nop", "jump"), (1, 2, 3, 4), False, A),
+                ("fixed", ("Jt", "Lt", "Xt", "Zt", "Rt", "N", "Jf", "Bt", "W"), (1, 2), ("none", "jump"), (1, 2, 3, 4), False, A),
                 ("fixed", ("Jt", "Xt", "N", "Jf"), (3,), ("none", "jump"), (1, 2, 3, 4), False, A),
-                ("ppci", ("Jt", "Lt", "Xt", "N", "Jf", "Bt"), (1, 2), ("none", "jump"), (1, 2, 3, 4), False, A),
+                ("ppci", ("Jt", "Lt", "Xt", "Zt", "Rt", "N", "Jf", "Bt"), (1, 2), ("none", "jump"), (1, 2, 3, 4), False, A),
                 ("ppci", ("Jt", "Xt", "N", "Jf"), (3,), ("none", "jump"), (1, 2, 3, 4), False, A)]
     else:
-        runs = [("legal", ("Jt", "Lt", "Xt", "N", "Jf"), (1, 2), ("none", "jump"), (1, 2, 3), False, ("append", "inplace")),
-                ("ppci", ("Jt", "Xt", "N", "Jf"), (1, 2), ("none",), (2, 3), False, A)]
+        runs = [("legal", ("Jt", "Lt", "Zt", "Rt", "N", "Jf"), (2,), ("none",), (2, 3), False, A),
+                ("ppci", ("Jt", "Xt", "Zt", "Rt", "Jf"), (2,), ("jump",), (1, 2, 3), False, A)]
     covered = {}
     cex = {}
     for design, items, lens, seconds, lays, full, orders in runs:
@@ -152,6 +153,9 @@ def slot_lines(kind, target):
         return [rvlink.cbl(1, target)]
     if kind == "cblx":
         return [rvlink.cbl(5, target)]
+    if kind.startswith("jal:"):          # jal:<relocation type>:<rd>  every (rd, relaxable relocation type) pair
+        _, rtype, rd = kind.split(":")
+        return [rvlink.jal(int(rd), target, rtype)]
     if kind == "jal":
         return ["jal x5, %s" % target]
     if kind == "beq":
@@ -182,10 +186,16 @@ def gen_struct_plan(rng):
                 slots.append({"label": name, "kind": kind, "target": None, "fill": rng.choice([0, 0, 0, 2, 4, 4, 6, 8, 12])})
             secs[sn] = slots
         plan.append(secs)
-    if rng.random() < 0.07:          # a listed defect class: keep it rare (every TLC error trace costs about a second)
+    if rng.random() < 0.07:
         o = rng.randrange(nobj)
         slots = plan[o][rng.choice(sorted(plan[o]))]
         slots[rng.randrange(len(slots))]["kind"] = "cblx"
+    # 32-bit jal with rd in {x0, ra, x5, x7} under each of the two relaxable relocation types (only (x0, cb_imm11) and
+    # (ra, cbl_imm11) may shrink); targets near and - through the layout / big fillers - far
+    for _ in range(rng.choice([0, 1, 1, 2, 3])):
+        o = rng.randrange(nobj)
+        slots = plan[o][rng.choice(sorted(plan[o]))]
+        slots[rng.randrange(len(slots))]["kind"] = "jal:%s:%d" % (rng.choice(["cb_imm11", "cbl_imm11"]), rng.choice([0, 1, 5, 7]))
     big = rng.random() < 0.15
     if big:
         o = rng.randrange(nobj)
@@ -451,6 +461,34 @@ def directed_jobs():
           "addi x10, x10, 1", "la x7, g", "sw x10, 0(x7)", "addi x1, x6, 0", "jalr x0, x1, 0", "fx:", "slli x10, x10, 2",
           "jalr x0, x5, 0", "section data", "g:", "dd 0"]
     job("d-jal-x5", [x5], split, calls([[2, 3]]))
+    # every (rd, relocation type) pair of the 32-bit jal, executed: calls that link through ra / x5 / x7 (the callee
+    # returns through that register) and jumps (x0) inside a leaf function whose ra is live - a site shrunk to the wrong
+    # compressed form (c.jal clobbers ra, c.j does not link) changes where the callee returns to.  near: all in 2 KiB;
+    # far: callees and jump targets behind a 2100-byte filler
+    for dist in ("near", "far"):
+        far = dist == "far"
+        m = ["global main", "global g", "section code", "main:", "addi x6, x1, 0", "add x10, x12, x13"]
+        k = 0
+        for rtype in ("cbl_imm11", "cb_imm11"):
+            for rd in (1, 5, 7):
+                k += 1
+                m += [rvlink.jal(rd, "c%d" % rd, rtype), "addi x10, x10, %d" % k]
+            k += 1
+            m += [rvlink.jal(1, "leaf_%s" % rtype[:3], "cbl_imm11"), "xori x10, x10, %d" % (k * 16)]
+        # main goes on behind the callees' filler and comes back (jal x0 under either type, forwards and backwards)
+        m += [rvlink.jal(0, "cont_a", "cbl_imm11"), "cont_b:", "la x7, g", "sw x10, 0(x7)", "addi x1, x6, 0", "jalr x0, x1, 0"]
+        if far:
+            m += ["ds 2100"]
+        m += ["cont_a:", "addi x10, x10, 3", rvlink.jal(0, "cont_b", "cb_imm11")]
+        for rd in (1, 5, 7):
+            m += ["c%d:" % rd, "slli x10, x10, 1", "addi x10, x10, %d" % rd, "jalr x0, x%d, 0" % rd]
+        for rtype in ("cbl_imm11", "cb_imm11"):
+            t = rtype[:3]
+            # a leaf that jumps (jal x0 under this relocation type) over an instruction while its return address is in ra
+            m += ["leaf_%s:" % t, "addi x10, x10, 5", rvlink.jal(0, "over_%s" % t, rtype), "addi x10, x10, 64",
+                  "over_%s:" % t, "addi x10, x10, 9", "jalr x0, x1, 0"]
+        m += ["section data", "g:", "dd 0"]
+        job("d-jal-rd-matrix-" + dist, [m], split, calls([[2, 3], [-7, 100]]))
     # a jump into another memory at the edge of the short range, behind a jump that shrinks: its distance grows
     grow = ["global far", "section code", "a:", rvlink.cb("b"), "b:", rvlink.cb("far"), "ds 4", "section code2", "ds 2", "far:", "ds 4"]
     lay = {"on": True, "entry": "", "mems": [mem("m0", 0x1000, 0x100, ["code"]), mem("m1", 0x1000 + 4 + 2046 - 2, 0x100, ["code2"])]}
@@ -640,7 +678,7 @@ class Engine:
         only = ctx.only["case"]["id"] if ctx.only is not None else None
         if ctx.only is None:
             model_check(ctx)
-        n_struct, n_exec, n_ir = (700, 120, 60) if thorough else (60, 10, 6)
+        n_struct, n_exec, n_ir = (700, 120, 60) if thorough else (48, 8, 5)
         jobs = directed_jobs()
         for k in range(n_struct):
             j = struct_job(ctx, k)
